@@ -5,6 +5,7 @@ mod cdigest;
 mod chal;
 mod core;
 mod bus;
+mod frionly;
 mod gprog;
 mod layers;
 mod opsat;
